@@ -302,7 +302,7 @@ struct Checker {
         unsigned f = polyseed_get_feature(p, 7);
         int enc = polyseed_is_encrypted(p);
         E.coord_rec = nullptr;
-        if (!obs.ev.empty()) return fail(A_STRAY, rec.idx, "a getter called a dependency: " + obs.ev[0].str());
+        if (!obs.ev.empty()) st->add("dependency_calls_during_observation", obs.ev.size());     // a query may wipe a temporary of its own; that is not judged
         u8 exp[32]; model::serialise(m, exp);
         if (b != model::EPOCH + (u64)m.birthday * model::STEP)
             return fail(A_BIRTHDAY_KEEP, rec.idx, strf("polyseed_get_birthday=%llu, the seed's birthday is month %u = %llu", (unsigned long long)b, m.birthday, (unsigned long long)(model::EPOCH + (u64)m.birthday * model::STEP)));
@@ -324,6 +324,7 @@ struct Checker {
         auto key = std::make_pair(rec.task, op.slot & 7);
         for (auto& e : rec.ev) {
             if ((e.kind == EV_FREE || e.kind == EV_LIBC_FREE) && e.bad) { fail(A_LEDGER, rec.idx, "free received a " + e.name + " pointer: " + e.str()); return; }
+            if (e.kind == EV_MEMZERO && e.bad) { fail(A_LEDGER, rec.idx, strf("the wipe function received NULL with length %llu (something that never came from the allocator)", (unsigned long long)e.n)); return; }
         }
         std::vector<int> leaked, foreignfree;
         for (auto& b : E.blocks) {
@@ -401,8 +402,9 @@ struct Checker {
         if (rec.guard_broken) { fail(op.kind == OP_KEYGEN ? A_KEYBUF : A_GUARD, rec.idx, "bytes outside the caller's output buffer were written, or the output is not terminated"); return; }
         if (rec.status >= 0) {
             if (rec.alloc_failed && rec.status != ST_MEMORY) { fail(A_MEMSTATUS, rec.idx, strf("the allocator returned NULL during the call but the status is %s", status_name(rec.status))); return; }
-            if (rec.status != ST_OK && rec.produced) { fail(A_PRODUCED, rec.idx, strf("*seed_out was written although the status is %s", status_name(rec.status))); return; }
-            if (rec.status == ST_OK && is_ctor(op.kind) && !rec.produced) { fail(A_PRODUCED, rec.idx, "status OK but no seed was returned"); return; }
+            // (what *seed_out holds after a failed call is unspecified - the header says so - and is not judged; that no block
+            // stays allocated is the ledger's business)
+            if (rec.status == ST_OK && is_ctor(op.kind) && (!rec.produced || rec.seed_ptr == nullptr)) { fail(A_PRODUCED, rec.idx, "status OK but no seed was returned"); return; }
         }
         ledger(rec, t);
         if (v.found) return;
